@@ -81,7 +81,11 @@ def check_prog(R, obs, rng, prog, label, category):
             args[n] = gcore.rand_value(rng, t, None)
         gl = {n: gcore.rand_value(rng, t, None) for t, n in prog.globals}
         inputs.append((args, gl))
+    # both optimisation settings: the unoptimised one always, the optimised one for every other program
     diff.check_program(R, obs, label, module, "f", inputs, "binding:" + category, source=src)
+    R.programs_seen = getattr(R, "programs_seen", 0) + 1
+    if R.programs_seen % 2 == 0:
+        diff.check_program(R, obs, label, module, "f", inputs, "binding-O1:" + category, source=src, optimize=True)
 
 
 def variants(rng, prog, all_positions=True, per_pos=None):
@@ -112,6 +116,16 @@ def variants(rng, prog, all_positions=True, per_pos=None):
         if vis:
             name = rng.choice(sorted(vis - {"acc"}))
             yield insert(prog, path, idx, ("bump", name)), "write %s at %s[%d]" % (name, list(path), idx), "use-visible"
+        # a name of a closed/disjoint scope declared again with the SAME type and WITHOUT initialiser, read before it is
+        # written: it must be a fresh zero, not the sibling's storage
+        htyped = [(nm, t2) for nm, t2 in gs.all_decls(prog.root) if nm not in vis]
+        if htyped:
+            nm, t2 = rng.choice(htyped)
+            p4 = insert(prog, path, idx, ("decl", nm, t2, None))
+            gs.scope_at(p4.root, path).items.insert(idx + 1, ("use", nm))
+            gs.scope_at(p4.root, path).items.insert(idx + 2, ("bump", nm))
+            gs.scope_at(p4.root, path).items.insert(idx + 3, ("use", nm))
+            yield p4, "uninitialised re-declaration of %s (same type) then use at %s[%d]" % (nm, list(path), idx), "hidden-uninitialised"
         # a declaration as the unbraced body of if / if-else / for / while: scoped to that statement
         sk = rng.choice(["if", "for", "while"])   # (if-else with two unbraced declarations: the statement does not say whether the branches are scopes)
         for cat, name in picks:
@@ -136,11 +150,23 @@ def run_shard(tier, seed, shard, n, R):
             continue
         prog = gs.Program(root, [(INT, "p")], [(FLOAT, "g0")], globals_after=(i % 3 == 0))
         check_prog(R, obs, rng, prog, "skeleton", "base")
-        for p2, label, cat in variants(rng, prog, all_positions=(tier == "quick" or i % 4 == 0), per_pos=4):
+        for p2, label, cat in variants(rng, prog, all_positions=(i % 4 == 0), per_pos=4):
             check_prog(R, obs, rng, p2, label, cat)
         R.count("skeletons")
         if i % 97 == shard:
             R.sample({"skeleton_source": gs.print_program(prog)[1]})
+    for i, (name, module) in enumerate(gs.sibling_family()):
+        if i % n != shard:
+            continue
+        from ..lang import print_module
+        src = print_module(module)
+        ins = [({"p": v}, {}) for v in (0, 1, 5)]
+        for opt in (False, True):
+            res = diff.check_program(R, obs, name, module, "f", ins, name + (":O1" if opt else ":O0"), source=src, optimize=opt)
+            if res["runnable"] and res["bad"] == 0:
+                R.nontriv(src, opt)
+        R.count("sibling_family_cases")
+    R.flags["sibling_reuse_family_all_scope_kind_pairs"] = True
     nrand = 25 if tier == "quick" else 500
     for j in range(nrand):
         prog = gs.random_skeleton(rng)
